@@ -36,6 +36,8 @@ pub mod cfb { pub use super::{Cfb, CfbError}; }
 // empty or the stream is at its end; `read_exact` fills buf completely or fails.
 pub trait Read {
     spec fn rem(&self) -> Seq<u8>;
+    /// ghost flag: some read/seek on this reader has returned an I/O error
+    spec fn io_failed(&self) -> bool;
     fn read(&mut self, buf: &mut [u8]) -> (r: Result<usize, std::io::Error>)
         ensures
             final(buf)@.len() == old(buf)@.len(),
@@ -43,8 +45,9 @@ pub trait Read {
                 Ok(n) => n <= old(buf)@.len() && n <= old(self).rem().len()
                     && (n == 0 ==> old(buf)@.len() == 0 || old(self).rem().len() == 0)
                     && final(self).rem() == old(self).rem().skip(n as int)
-                    && final(buf)@ == old(self).rem().take(n as int) + old(buf)@.skip(n as int),
-                Err(_) => true,
+                    && final(buf)@ == old(self).rem().take(n as int) + old(buf)@.skip(n as int)
+                    && final(self).io_failed() == old(self).io_failed(),
+                Err(_) => final(self).io_failed(),
             };
     fn read_exact(&mut self, buf: &mut [u8]) -> (r: Result<(), std::io::Error>)
         ensures
@@ -52,17 +55,17 @@ pub trait Read {
             match r {
                 Ok(_) => old(buf)@.len() <= old(self).rem().len()
                     && final(self).rem() == old(self).rem().skip(old(buf)@.len() as int)
-                    && final(buf)@ == old(self).rem().take(old(buf)@.len() as int),
-                Err(_) => old(buf)@.len() > old(self).rem().len() ==> true,
-            },
-            // a stream that still holds enough bytes and does not fail at the OS level is not modelled as failing:
-            // nothing is assumed about Err (any read may fail with an I/O error)
-            ;
+                    && final(buf)@ == old(self).rem().take(old(buf)@.len() as int)
+                    && final(self).io_failed() == old(self).io_failed(),
+                // nothing else is assumed about Err: any read may fail with an I/O error (UnexpectedEof when the stream is too short)
+                Err(_) => final(self).io_failed(),
+            };
 }
 
 // TRUSTED: (A-io) std's `impl<R: Read> Read for &mut R` forwards to the referenced reader
 impl<R: Read> Read for &mut R {
     open spec fn rem(&self) -> Seq<u8> { (**self).rem() }
+    open spec fn io_failed(&self) -> bool { (**self).io_failed() }
     fn read(&mut self, buf: &mut [u8]) -> (r: Result<usize, std::io::Error>) { (**self).read(buf) }
     fn read_exact(&mut self, buf: &mut [u8]) -> (r: Result<(), std::io::Error>) { (**self).read_exact(buf) }
 }
@@ -162,6 +165,8 @@ impl Sectors {
         }),
         //# C13.get_conservation
         sector_in(old(self).total(old(r)), old(self).sz(), id as int) && res is Ok ==> final(self).total(final(r)) == old(self).total(old(r)),
+        //# C13,C20.get_err_is_io_failure
+        (res matches Err(e) ==> e is Io && (*final(r)).io_failed()) && (res is Ok ==> (*final(r)).io_failed() == (*old(r)).io_failed()),
         //# C13.get_short_at_eof
         !sector_in(old(self).total(old(r)), old(self).sz(), id as int) && id as int * old(self).sz() <= old(self).total(old(r)).len() ==> (match res {
             Ok(s) => s@ == old(self).total(old(r)).skip(id as int * old(self).sz()),
@@ -185,6 +190,7 @@ impl Sectors {
                     data0 == old(self).data@, total == old(self).total(old(r)),
                     self.data@.take(data0.len() as int) == data0,
                     self.data@.take(len as int) + (*r).rem() == total,
+                    (*r).io_failed() == (*old(r)).io_failed(),
                 decreases end - len,
 //@@ before /let read = /
                 let ghost pre = self.data@;
@@ -243,6 +249,8 @@ map_err(|e| -> (ce: CfbError) ensures ce is Io { CfbError::Io(e) })
             Ok(v) => v@ == stream_bytes(old(self).total(old(r)), old(self).sz(), fats@, sector_id, len as int, fuel),
             Err(e) => e is Io,
         }),
+        //# C13,C20.chain_err_is_io_failure
+        (res matches Err(e) ==> e is Io && (*final(r)).io_failed()) && (res is Ok ==> (*final(r)).io_failed() == (*old(r)).io_failed()),
         //# C13.chain_conservation
         forall|fuel: nat| #[trigger] chain_ok(old(self).total(old(r)), old(self).sz(), fats@, sector_id, fuel) && res is Ok
             ==> final(self).total(final(r)) == old(self).total(old(r)),
@@ -267,6 +275,7 @@ map_err(|e| -> (ce: CfbError) ensures ce is Io { CfbError::Io(e) })
                 all == fat_chain(fats@, start0, f0).unwrap(),
                 old(self).loaded().len() <= self.loaded().len() && self.loaded().take(old(self).loaded().len() as int) == old(self).loaded(),
                 okx ==> self.total(r) == total,
+                (*r).io_failed() == (*old(r)).io_failed(),
                 okx ==> done.len() <= all.len() && done == all.take(done.len() as int) && fat_chain(fats@, sector_id, fl) == Some(all.skip(done.len() as int)),
                 okx ==> chain@ == chain_bytes(total, sz, done),
             decreases fl,
@@ -380,6 +389,8 @@ proof fn lemma_signature(h: Seq<u8>)
         !hdr_valid((*old(f)).rem()) ==> res is Err,
         //# C13,C20.header_bad_signature_is_ole_error
         (*old(f)).rem().len() >= 512 && !hdr_signature_ok((*old(f)).rem()) ==> (match res { Err(e) => e is Ole || e is Io, Ok(_) => false }),
+        //# C13,C20.header_io_error_flag
+        (res matches Err(CfbError::Io(_)) ==> (*final(f)).io_failed()) && (res is Ok ==> (*final(f)).io_failed() == (*old(f)).io_failed()),
         //# C13.header_fields
         match res {
             Ok((hd, difat)) => {
@@ -471,6 +482,10 @@ impl Cfb {
             forall|i: int| 0 <= i < self.directories@.len() ==> (#[trigger] self.directories@[i]).ent() == self.dirs()[i],
             forall|i: int| 0 <= i < self.directories@.len() ==> (#[trigger] self.dirs()[i]) == self.directories@[i].ent(),
     {}
+    /// logical content held by this `Cfb` together with its reader
+    pub open spec fn parsed<R: Read>(&self, r: &R) -> Parsed {
+        Parsed { size: self.ssz(), data: self.space(r), fat: self.fat(), dirs: self.dirs(), mini_fat: self.mini_fat(), mini_stream: self.mini_stream() }
+    }
     pub closed spec fn wf(&self) -> bool { self.sectors.wf() && self.mini_sectors.wf() && self.mini_sectors.sz() == 64 && (self.sectors.sz() == 512 || self.sectors.sz() == 4096) }
 }
 
@@ -609,6 +624,57 @@ pub open spec fn cfb_parse(inp: Seq<u8>, fuel: nat) -> Option<Parsed> {
     }
 }
 
+/// [MS-CFB] 2.6.3 / 2.4: a stream shorter than the mini stream cutoff (4096) lives in the mini stream (64-byte mini sectors,
+/// mini FAT), any other stream in regular sectors (FAT)
+pub open spec fn logical_ok(p: Parsed, i: int, fuel: nat) -> bool {
+    if p.dirs[i].len < 4096 { chain_ok(p.mini_stream, 64, p.mini_fat, p.dirs[i].start, fuel) }
+    else { chain_ok(p.data, p.size, p.fat, p.dirs[i].start, fuel) }
+}
+pub open spec fn logical_stream(p: Parsed, i: int, fuel: nat) -> Seq<u8> {
+    if p.dirs[i].len < 4096 { stream_bytes(p.mini_stream, 64, p.mini_fat, p.dirs[i].start, p.dirs[i].len as int, fuel) }
+    else { stream_bytes(p.data, p.size, p.fat, p.dirs[i].start, p.dirs[i].len as int, fuel) }
+}
+/// `v` is what a container with logical content `p` holds under `name`
+pub open spec fn reads_as(p: Parsed, name: Seq<char>, v: Seq<u8>) -> bool {
+    forall|i: int, fuel: nat| only_name(p.dirs, name, i) && #[trigger] logical_ok(p, i, fuel) ==> v == logical_stream(p, i, fuel)
+}
+//@@ props C13
+/// C13 layout independence: the bytes read for `name` are a function of the logical stream alone. Two containers whose entry
+/// `name` denotes the same logical stream -- whatever their sector size, FAT/DIFAT extent, chain order and fragmentation,
+/// mini-stream or regular placement, directory order, unused entries, free sectors -- read as the same bytes.
+proof fn lemma_layout_independent(p: Parsed, q: Parsed, name: Seq<char>, i: int, j: int, fp: nat, fq: nat, vp: Seq<u8>, vq: Seq<u8>)
+    requires
+        only_name(p.dirs, name, i), logical_ok(p, i, fp),
+        only_name(q.dirs, name, j), logical_ok(q, j, fq),
+        logical_stream(p, i, fp) == logical_stream(q, j, fq),
+        reads_as(p, name, vp), reads_as(q, name, vq),
+    ensures
+        vp == vq,
+{
+}
+/// witness for the hypotheses of lemma_layout_independent and of the conditional clauses (chain_ok, only_name): a one-sector stream
+proof fn witness_layout_independent()
+{
+    let data = Seq::new(512, |i: int| 0u8);
+    let fat = seq![0xFFFF_FFFEu32];
+    reveal_with_fuel(fat_chain, 3);
+    assert(fat_chain(fat, 0u32, 2) == Some(seq![0u32] + Seq::<u32>::empty()));
+    let ids = fat_chain(fat, 0u32, 2).unwrap();
+    assert(ids.len() == 1 && ids[0] == 0u32);
+    assert(chain_ok(data, 512, fat, 0u32, 2));
+    let d = DirEnt { name: seq!['W'], start: 0u32, len: 5000nat };
+    let p = Parsed { size: 512, data, fat, dirs: seq![d], mini_fat: Seq::<u32>::empty(), mini_stream: Seq::<u8>::empty() };
+    assert(only_name(p.dirs, seq!['W'], 0));
+    assert(logical_ok(p, 0, 2));
+    let v = logical_stream(p, 0, 2);
+    assert forall|i: int, fuel: nat| only_name(p.dirs, seq!['W'], i) && #[trigger] logical_ok(p, i, fuel) implies v == logical_stream(p, i, fuel) by {
+        lemma_chain_fuel(fat, 0u32, fuel, 2);
+    }
+    assert(reads_as(p, seq!['W'], v));
+    lemma_layout_independent(p, p, seq!['W'], 0, 0, 2, 2, v, v);
+}
+//@@ props C13,C20,C06
+
 proof fn lemma_parse_needs_header(inp: Seq<u8>, fuel: nat)
     ensures cfb_parse(inp, fuel) is Some ==> hdr_valid(inp),
 {
@@ -642,6 +708,16 @@ proof fn lemma_parse_needs_header(inp: Seq<u8>, fuel: nat)
             && final(self).mini_stream().take(old(self).mini_stream().len() as int) == old(self).mini_stream(),
         //# C13.stream_not_found
         !has_name(old(self).dirs(), name@) ==> (match res { Err(CfbError::StreamNotFound(s)) => s@ == name@, _ => false }),
+        //# C13,C20.get_stream_io_error_flag
+        (res matches Err(CfbError::Io(_)) ==> (*final(r)).io_failed()) && (res is Ok ==> (*final(r)).io_failed() == (*old(r)).io_failed()),
+        //# C13.get_stream_reads_logical_stream
+        res matches Ok(v) ==> reads_as(old(self).parsed(old(r)), name@, v@),
+        //# C13.stream_lookup_independent_of_directory_order
+        // every entry bearing the name denotes the returned bytes, i.e. the result does not depend on which same-named entry
+        // comes first in the directory stream (names are unique only among siblings of a storage, [MS-CFB] 2.6.4)
+        forall|i: int, fuel: nat| 0 <= i < old(self).dirs().len() && old(self).dirs()[i].name == name@
+            && #[trigger] logical_ok(old(self).parsed(old(r)), i, fuel)
+            ==> (res matches Ok(v) ==> v@ == logical_stream(old(self).parsed(old(r)), i, fuel)),
         //# C13.mini_cutoff_mini_stream
         forall|i: int, fuel: nat| only_name(old(self).dirs(), name@, i) && old(self).dirs()[i].len < 4096
             && #[trigger] chain_ok(old(self).mini_stream(), 64, old(self).mini_fat(), old(self).dirs()[i].start, fuel) ==> (match res {
@@ -699,8 +775,9 @@ proof fn lemma_parse_needs_header(inp: Seq<u8>, fuel: nat)
                 &&& c.mini_fat() == p.mini_fat
                 &&& c.mini_stream() == p.mini_stream
                 &&& c.space(final(reader)) == p.data
+                &&& (*final(reader)).io_failed() == (*old(reader)).io_failed()
             },
-            Err(e) => e is Io,
+            Err(e) => e is Io && (*final(reader)).io_failed(),
         }),
 //@@ end
 //@@ endimpl
@@ -713,6 +790,8 @@ pub trait Seek: Read {
     fn seek(&mut self, pos: std::io::SeekFrom) -> (r: Result<u64, std::io::Error>)
         ensures
             final(self).content() == old(self).content(),
+            r is Err ==> final(self).io_failed(),
+            r is Ok ==> final(self).io_failed() == old(self).io_failed(),
             match r {
                 Ok(n) => match pos {
                     std::io::SeekFrom::Start(k) => n == k && (k == 0 ==> final(self).rem() == old(self).content()),
@@ -722,6 +801,12 @@ pub trait Seek: Read {
                 Err(_) => true,
             };
 }
+
+// TRUSTED: the `?` operator converts the error with `From::from` (Rust reference, `FromResidual for Result`); vstd leaves
+// this link (`spec_from`) uninterpreted. The `From` impls below are verified against their expansion.
+#[verifier::external_body]
+pub broadcast proof fn axiom_question_mark_from<S: From<T>, T>(e: T, r: S)
+    ensures #[trigger] vstd::std_specs::control_flow::spec_from::<S, T>(e, r) ==> call_ensures(<S as From<T>>::from, (e,), r) {}
 
 //@@ item src/xlsx/mod.rs enum XlsxError
 //@@ item src/xlsb/mod.rs enum XlsbError
@@ -748,11 +833,15 @@ impl From<std::io::Error> for XlsbError {
         !hdr_signature_ok(old(reader).content()) ==> (match res { Ok(_) => true, Err(e) => e is Io }),
         //# C20.password_iff_encrypted_package
         forall|fuel: nat| #[trigger] cfb_parse(old(reader).content(), fuel) is Some ==> (match res {
-            Ok(_) => !has_name(cfb_parse(old(reader).content(), fuel).unwrap().dirs, "EncryptedPackage"@),
+            Ok(_) => !has_name(cfb_parse(old(reader).content(), fuel).unwrap().dirs, "EncryptedPackage"@) || (*final(reader)).io_failed(),
             Err(e) => e is Io || (e is Password && has_name(cfb_parse(old(reader).content(), fuel).unwrap().dirs, "EncryptedPackage"@)),
         }),
         //# C20.password_only_for_cfb
         res matches Err(e) && e is Password ==> hdr_valid(old(reader).content()),
+//@@ body
+    broadcast use axiom_question_mark_from;
+    let ghost inp = reader.content();
+    proof { assert forall|fuel: nat| #[trigger] cfb_parse(inp, fuel) is Some implies hdr_valid(inp) by { lemma_parse_needs_header(inp, fuel); } }
 //@@ end
 pub mod xlsb { use super::*;
 //@@ fn src/xlsb/mod.rs check_for_password_protected props=C20 entry ret=res
@@ -762,11 +851,15 @@ pub mod xlsb { use super::*;
         !hdr_signature_ok(old(reader).content()) ==> (match res { Ok(_) => true, Err(e) => e is Io }),
         //# C20.password_iff_encrypted_package
         forall|fuel: nat| #[trigger] cfb_parse(old(reader).content(), fuel) is Some ==> (match res {
-            Ok(_) => !has_name(cfb_parse(old(reader).content(), fuel).unwrap().dirs, "EncryptedPackage"@),
+            Ok(_) => !has_name(cfb_parse(old(reader).content(), fuel).unwrap().dirs, "EncryptedPackage"@) || (*final(reader)).io_failed(),
             Err(e) => e is Io || (e is Password && has_name(cfb_parse(old(reader).content(), fuel).unwrap().dirs, "EncryptedPackage"@)),
         }),
         //# C20.password_only_for_cfb
         res matches Err(e) && e is Password ==> hdr_valid(old(reader).content()),
+//@@ body
+    broadcast use axiom_question_mark_from;
+    let ghost inp = reader.content();
+    proof { assert forall|fuel: nat| #[trigger] cfb_parse(inp, fuel) is Some implies hdr_valid(inp) by { lemma_parse_needs_header(inp, fuel); } }
 //@@ end
 } // mod xlsb
 
